@@ -342,6 +342,8 @@ theorem gen32_written (val len : Nat) (base : Int) (sign : Bool) (hv : val < 2 ^
   · have e0 : (val == 0) = false := by simp [hv0]
     have hS : decide (toS 32 (Int.ofNat val) < 0) = decide (2 ^ 31 ≤ val) := by
       rw [decide_eq_decide]; exact toS_neg_iff (by decide) hv
+    have hS' : decide (toS 32 (Int.ofNat val) ≤ 0) = decide (2 ^ 31 ≤ val) := by
+      rw [decide_eq_decide, toS_ofNat (by decide) hv]; split <;> omega
     by_cases h2 : base = 2
     · subst h2
       have hc : canon 32 val 2 sign = specDigits 2 val := by simp [canon, effBase]
@@ -380,7 +382,7 @@ theorem gen32_written (val len : Nat) (base : Int) (sign : Bool) (hv : val < 2 ^
               simp [canon, heff, hge]
             have hn : uneg 32 val = 4294967296 - val := by rw [uneg_pos (by omega) hv]
             have hn' : usub 32 0 val = 4294967296 - val := by rw [usub_zero_pos (by omega) hv]
-            simp only [UInt32ToStrBaseSign, e0, e2, e8, e16, hS]
+            simp only [UInt32ToStrBaseSign, e0, e2, e8, e16, hS, hS']
             by_cases h0 : 0 < len
             · simp [hge, h0, hn, hn', hU]
               c_loops32
@@ -399,7 +401,7 @@ theorem gen32_written (val len : Nat) (base : Int) (sign : Bool) (hv : val < 2 ^
               exact absurd ⟨a, by omega⟩ hneg
             have hcond : (sign && decide (2 ^ 31 ≤ val)) = false := by
               cases sign <;> simp at hneg ⊢ <;> omega
-            simp only [UInt32ToStrBaseSign, e0, e2, e8, e16, hS]
+            simp only [UInt32ToStrBaseSign, e0, e2, e8, e16, hS, hS']
             simp [hcond]
             c_loops32
             rw [hb, hc]
@@ -487,6 +489,8 @@ theorem gen64_written (val len : Nat) (base : Int) (sign : Bool) (hv : val < 2 ^
   · have e0 : (val == 0) = false := by simp [hv0]
     have hS : decide (toS 64 (Int.ofNat val) < 0) = decide (2 ^ 63 ≤ val) := by
       rw [decide_eq_decide]; exact toS_neg_iff (by decide) hv
+    have hS' : decide (toS 64 (Int.ofNat val) ≤ 0) = decide (2 ^ 63 ≤ val) := by
+      rw [decide_eq_decide, toS_ofNat (by decide) hv]; split <;> omega
     by_cases h2 : base = 2
     · subst h2
       have hc : canon 64 val 2 sign = specDigits 2 val := by simp [canon, effBase]
@@ -525,7 +529,7 @@ theorem gen64_written (val len : Nat) (base : Int) (sign : Bool) (hv : val < 2 ^
               simp [canon, heff, hge]
             have hn : uneg 64 val = 18446744073709551616 - val := by rw [uneg_pos (by omega) hv]
             have hn' : usub 64 0 val = 18446744073709551616 - val := by rw [usub_zero_pos (by omega) hv]
-            simp only [UInt64ToStrBaseSign, e0, e2, e8, e16, hS]
+            simp only [UInt64ToStrBaseSign, e0, e2, e8, e16, hS, hS']
             by_cases h0 : 0 < len
             · simp [hge, h0, hn, hn', hU]
               c_loops64
@@ -544,7 +548,7 @@ theorem gen64_written (val len : Nat) (base : Int) (sign : Bool) (hv : val < 2 ^
               exact absurd ⟨a, by omega⟩ hneg
             have hcond : (sign && decide (2 ^ 63 ≤ val)) = false := by
               cases sign <;> simp at hneg ⊢ <;> omega
-            simp only [UInt64ToStrBaseSign, e0, e2, e8, e16, hS]
+            simp only [UInt64ToStrBaseSign, e0, e2, e8, e16, hS, hS']
             simp [hcond]
             c_loops64
             rw [hb, hc]
